@@ -46,6 +46,8 @@ type implRes struct {
 	Err   string
 	Steps int
 	Panic string
+	// ScriptChanged: the loaded script bytes were modified by the execution.
+	ScriptChanged bool
 }
 
 const implGasLimit = 100_0000_0000 // 100 GAS in datoshi: a guard against endless loops, never reached by our programs
@@ -58,6 +60,17 @@ func runImplOpt(script []byte, countSteps bool) (res implRes) {
 		if r := recover(); r != nil {
 			res.State = "PANIC"
 			res.Panic = fmt.Sprint(r)
+		}
+	}()
+	// The VM gets a private copy: a ByteString pushed by PUSHDATA may share
+	// memory with the loaded script, and an implementation that lets a script
+	// write through it must not corrupt the program of the next run (or the
+	// recorded one). A changed copy is reported.
+	orig := script
+	script = append([]byte{}, script...)
+	defer func() {
+		if string(orig) != string(script) {
+			res.ScriptChanged = true
 		}
 	}()
 	v := vm.New()
@@ -424,6 +437,10 @@ func (s *stats) check(p prog) bool {
 	if a.State != b.State || a.Canon != b.Canon || a.Gas != b.Gas || a.Steps != b.Steps {
 		viol("determinism", fmt.Sprintf("run1: %s [%s] gas=%d steps=%d; run2: %s [%s] gas=%d steps=%d",
 			a.State, clip(a.Canon), a.Gas, a.Steps, b.State, clip(b.Canon), b.Gas, b.Steps))
+		return false
+	}
+	if a.ScriptChanged || b.ScriptChanged {
+		viol("script-modified", "the execution wrote into the bytes of the loaded script (a ByteString is immutable)")
 		return false
 	}
 	if a.State == "PANIC" {
